@@ -685,9 +685,18 @@ def saturate_rule(ctx):
     return res
 
 
+def dt_memo_rule(ctx):
+    """DT-MEMO = OWN-ATTR for kept tensors (shared with C13): a tensor kept in a plain attribute or a Python
+    container is not converted by .double() / .float() / .to(): a model evaluated once in float32 and then
+    converted returns the kept float32 tensor for float64 inputs."""
+    from .own_rules import memo_findings
+
+    return memo_findings(ctx, "DT-MEMO", "the kept tensor is not converted by .double() / .to(), so a converted model returns results in the dtype of the call that filled the memo")
+
+
 register(
     "C19",
-    [c19_rules, logspace_rule, moment_rule, saturate_rule],
+    [c19_rules, logspace_rule, moment_rule, saturate_rule, dt_memo_rule],
     "NUM-SATURATE: every log / log1p call is examined on the symbolic expansion of its function (helpers inlined): an argument that "
     "is a polynomial in the output of one sigmoid / tanh / softmax call and vanishes at a saturation limit of that call (log(s), "
     "log1p(-s), log(1 - y**2)) is reported unless the squashed value is confined to a two-sided bounded region by a mask -- those "
